@@ -61,6 +61,10 @@ def main():
         suite_ok = True
         for m in [".", "otel", "stores/sqlite", "stores/durablestream"]:
             rc, o = sh("go test -vet=off -count=1 -timeout 300s -skip 'Seeded|seeded' ./...", cwd=os.path.join(withc, m))
+            if rc != 0 and "TestAsyncSequentialHandlerContextCancelled" in o and "test timed out" in o:
+                # the repository's own flaky test (hangs in ~1/300 runs on the pristine tree too): run again
+                meta.setdefault("notes", []).append("suite re-run once: TestAsyncSequentialHandlerContextCancelled hung (pre-existing flake)")
+                rc, o = sh("go test -vet=off -count=1 -timeout 300s -skip 'Seeded|seeded' ./...", cwd=os.path.join(withc, m))
             meta["ran"].append({"cmd": "go test -vet=off -count=1 -skip Seeded ./... (in %s, with change)" % m, "rc": rc})
             if rc != 0:
                 suite_ok = False
